@@ -341,9 +341,10 @@ Definition wf_doc (ctx : list (list attr)) (n : node) : bool :=
      including xmlns="" with no rendered default namespace); 4 attribute order by prefix differs from order by
      namespace URI; 5 an attribute whose local name is "xmlns", or a declaration of the prefixes xml / xmlns;
    6 two attributes with the same (prefix, local name). *)
-Definition names_ok (attrs : list attr) : bool :=
-  forallb (fun a => (negb (bytes_eqb (a3_key a) s_xmlns) || match a3_space a with [] => true | _ => false end)
-                    && negb (bytes_eqb (a3_space a) s_xmlns && bytes_eqb (a3_key a) s_xml)) attrs.
+Definition name_ok (a : attr) : bool :=
+  (negb (bytes_eqb (a3_key a) s_xmlns) || match a3_space a with [] => true | _ => false end)
+  && negb (bytes_eqb (a3_space a) s_xmlns && (bytes_eqb (a3_key a) s_xml || match a3_key a with [] => true | _ => false end)).
+Definition names_ok (attrs : list attr) : bool := forallb name_ok attrs.
 Definition order_ok (e : env) (attrs : list attr) : bool :=
   let pl := plain_attrs attrs in
   forallb (fun x => forallb (fun y => Bool.eqb (attr_lt x y) (xattr_lt e x y)) pl) pl.
